@@ -403,7 +403,7 @@ func runC20(c *Ctx) {
 	c.Clause("C20.7 the ECN tracker (whose verdict triggers a congestion event) is consulted only for ACKs that advance the largest acknowledged, before that value is updated (the repository's stated precondition)")
 	c.Clause("C20.6 probe credit, which bypasses the congestion check in SendMode, is written only by the timeout / ACK / send / drop paths and is reset by every processed ACK")
 	c.Clause("C20.9 the packet numbers compared by the once-per-window guard come from one packet-number space")
-	c.Clause("C20.10 the multiplicative-decrease factors (renoBeta, beta, betaLastMax) lie strictly between 0 and 1, and every reduction in OnCongestionEvent is the window times such a factor or the cubic's after-loss window (itself the window times beta())")
+	c.Clause("C20.10 the multiplicative-decrease factors (renoBeta, beta, betaLastMax) lie strictly between 0 and 1, and every reduction in OnCongestionEvent is the window times such a factor or the cubic's after-loss window (itself the window times beta()); the number of emulated connections in beta() is the constant ≥ 1 (its setter has no caller)")
 	c.NotCovered("the numeric inequalities over event histories")
 	c.NotCovered("cubic curve arithmetic beyond the sign of the decrease factors, and hybrid slow start")
 
@@ -440,6 +440,11 @@ func c20DecreaseFactors(c *Ctx) {
 		ok := f.Kind() == constant.Float && constant.Compare(f, token.GTR, constant.MakeInt64(0)) && constant.Compare(f, token.LSS, constant.MakeInt64(1))
 		c.Check(ok, R, "const:0<"+n+"<1", c.P.Pos(k.Pos()), "a backoff factor of 1 or more does not shrink the window on loss; 0 or less collapses it below the minimum before the clamp")
 	}
+	// beta() = (N-1+beta)/N stays in (0,1) only for N ≥ 1: N comes from the constant, the setter has no caller
+	nc := c.konst(cong, "defaultNumConnections")
+	c.Check(constInt(nc) >= 1, R, "const:defaultNumConnections>=1", c.P.Pos(nc.Pos()), "with N = 0 the N-connection beta divides by zero and the after-loss window is no longer a fraction of the window")
+	c.checkWriters(R, c.fld(cong, "Cubic", "numConnections"), c.set([3]string{cong, "", "NewCubic"}, [3]string{cong, "Cubic", "SetNumConnections"}), 2)
+	c.checkCallers(R, c.obj(cong, "Cubic", "SetNumConnections"), c.set(), 0)
 	cw := c.fld(cong, "cubicSender", "congestionWindow")
 	oce := c.fn(cong, "cubicSender", "OnCongestionEvent")
 	minCW := c.obj(cong, "cubicSender", "minCongestionWindow")
